@@ -51,6 +51,7 @@ func C04(c *Ctx) {
 	c.R.Rule("C04-R6", "E3", "only the matcher and the guard decide a branch", 2)
 	c.R.Rule("C04-R8", "E3", "a script that returns an object yields non-nil bindings (an accepting guard is not read as a rejecting one)", 1)
 	c.shareRule("C18", "C18-R3", "C04-R10", "a guard's rejection survives the wrapper every guard runs through: nil bindings stay nil")
+	c.R.Rule("C04-R11", "E3", "a failed action is routed by the spec's settings alone: the exits on the failed-action path depend only on the action's result, ActionErrorBranches and ActionErrorNode", 2)
 	c.R.Rule("C04-R9", "E7", "who may write: the engine never assigns the spec's action-error routing settings", 1)
 	c.R.Rule("C04-R7", "E1", "a guard or action cannot change the current bindings in place (scripts see copies)", 1)
 	step := c.fn("core", "Spec", "Step")
@@ -336,6 +337,16 @@ func C04(c *Ctx) {
 				under = true
 			}
 		}
+		// ... and under nothing else that is decided after branch evaluation (whether or not a branch was taken, or failed)
+		before := map[flow.Fact]bool{}
+		for _, f := range flow.FactsAt(considerCall.Block()) {
+			before[f] = true
+		}
+		for _, f := range flow.FactsAt(st.Block()) {
+			if !before[f] && !(f.Cond == flag && f.True) {
+				under = false
+			}
+		}
 		pr, isP := st.Val.(*ssa.Parameter)
 		c.R.Check(under && isP && pr == ifaceParam(step), "C04-R3", "Step: Consumed = pending under the consumed flag", c.pos(st), "stored only when consider reports consumption", "Stride.Consumed is not (pending message iff message branching)")
 	}
@@ -447,6 +458,144 @@ func C04(c *Ctx) {
 			}
 		}
 		c.R.Check(okRepl, "C04-R4", "Step: action result replaces bindings", c.pos(considerCall), "on err == nil branch evaluation gets Execution.Bs", "after a successful action the branches do not see the bindings the action returned; "+strings.Join(why, "; "))
+	}
+
+	// ------------------------------------------------------------ R11: where a failed action goes is decided by the spec's two settings alone
+	if actionCall != nil {
+		var exe, aerr ssa.Value
+		for _, r := range ssau.Referrers(actionCall) {
+			if ex, ok := r.(*ssa.Extract); ok {
+				if ex.Index == 0 {
+					exe = ex
+				} else {
+					aerr = ex
+				}
+			}
+		}
+		// what a condition is about: "exec" (the execution's results), "setting" (the two routing settings), "" (anything else)
+		var about func(v ssa.Value, depth int) map[string]bool
+		about = func(v ssa.Value, depth int) map[string]bool {
+			out := map[string]bool{}
+			if depth > 6 {
+				out["other"] = true
+				return out
+			}
+			merge := func(m map[string]bool) {
+				for k := range m {
+					out[k] = true
+				}
+			}
+			switch x := v.(type) {
+			case *ssa.Const:
+				return out
+			case *ssa.BinOp:
+				merge(about(x.X, depth+1))
+				merge(about(x.Y, depth+1))
+				return out
+			case *ssa.UnOp:
+				if x.Op == token.NOT {
+					return about(x.X, depth+1)
+				}
+			case *ssa.Call:
+				if b, isB := x.Common().Value.(*ssa.Builtin); isB && b.Name() == "len" {
+					return about(x.Common().Args[0], depth+1)
+				}
+			}
+			if v == aerr || v == exe {
+				out["exec"] = true
+				return out
+			}
+			ds := deepDefs(v, stepFns)
+			if len(ds) == 0 {
+				out["other"] = true
+			}
+			for _, d := range ds {
+				if d == aerr || d == exe {
+					out["exec"] = true
+					continue
+				}
+				if _, isC := d.(*ssa.Const); isC {
+					continue
+				}
+				if _, is := isFieldLoad(d, "core", "Spec", "ActionErrorNode"); is {
+					out["node"] = true
+					continue
+				}
+				if _, is := isFieldLoad(d, "core", "Spec", "ActionErrorBranches"); is {
+					out["branches"] = true
+					continue
+				}
+				if d != v {
+					if _, isB := d.(*ssa.BinOp); isB {
+						merge(about(d, depth+1))
+						continue
+					}
+				}
+				out["other"] = true
+			}
+			return out
+		}
+		n11 := 0
+		for _, f := range stepFns {
+			site := siteInFn(f, actionCall)
+			if site == nil {
+				continue
+			}
+			before := map[flow.Fact]bool{}
+			for _, ft := range flow.FactsAt(site.Block()) {
+				before[ft] = true
+			}
+			for _, b := range f.Blocks {
+				if len(b.Instrs) == 0 {
+					continue
+				}
+				ret, isRet := b.Instrs[len(b.Instrs)-1].(*ssa.Return)
+				if !isRet || !flow.Reachable(site.Block(), b, nil) {
+					continue
+				}
+				failed := false
+				var post []flow.Fact
+				for _, ft := range flow.FactsAt(b) {
+					if before[ft] {
+						continue
+					}
+					post = append(post, ft)
+					if bo, isB := ft.Cond.(*ssa.BinOp); isB && ssau.IsNilConst(bo.Y) && ((bo.Op == token.NEQ && ft.True) || (bo.Op == token.EQL && !ft.True)) {
+						if _, isErr := bo.X.Type().Underlying().(*types.Interface); isErr && bo.X.Type().String() == "error" && about(bo.X, 0)["exec"] {
+							failed = true
+						}
+					}
+				}
+				if !failed {
+					continue
+				}
+				n11++
+				var bad []string
+				seenNode, seenBranches := false, false
+				for _, ft := range post {
+					a := about(ft.Cond, 0)
+					if a["other"] {
+						bad = append(bad, "the exit depends on "+ft.Cond.String()+" ("+c.pos(ft.If)+"), which is neither the action's result nor one of the spec's routing settings")
+					}
+					if a["node"] {
+						seenNode = true
+					}
+					if a["branches"] {
+						seenBranches = true
+					}
+				}
+				raw := false
+				for _, rv := range ret.Results {
+					if rv.Type().String() == "error" && !ssau.IsNilConst(rv) {
+						raw = true
+					}
+				}
+				if raw && !(seenNode && seenBranches) {
+					bad = append(bad, "the action's error is returned without consulting both ActionErrorBranches and ActionErrorNode")
+				}
+				c.R.Check(len(bad) == 0, "C04-R11", fmt.Sprintf("%s: exit #%d on the failed-action path is chosen by the routing settings", fname(f), n11), c.pos(ret), "after the action failed, only the action's result, Spec.ActionErrorBranches and Spec.ActionErrorNode decide this exit", strings.Join(bad, "; ")+": some failures of an action (a timeout, say) are then routed differently from the others")
+			}
+		}
 	}
 
 	// ------------------------------------------------------------ R2, R5, R6 (try and the helpers it is split into)
